@@ -1,6 +1,8 @@
 """C08 — resource limits are never exceeded; units are returned exactly once."""
 from __future__ import annotations
 
+from hypothesis import strategies as st
+
 from vf.core import Ctx, Violation
 from vf.lab import ctl as C
 from vf.lab import progs as P
@@ -48,7 +50,76 @@ def oracle(ctx: Ctx, case):
     return r
 
 
+@st.composite
+def reuse_cases(draw):
+    """Two executions on ONE Scheduler object: the first fails (a sibling is rejected before reaching
+    an executor) while k limited jobs are still out with an executor; they stay unreported while the
+    second execution runs n further limited jobs."""
+    limit = draw(st.integers(2, 3))
+    return {"reuse": True, "limit": limit, "stragglers": draw(st.integers(1, limit - 1)), "second": draw(st.integers(2, 4)),
+            "decisions": draw(st.lists(st.integers(0, 3), max_size=12)), "fine": draw(st.booleans())}
+
+
+def reuse_oracle(ctx: Ctx, case) -> None:
+    import vf_tasks
+    from vf.lab import dbx
+
+    lim, k, n = case["limit"], case["stragglers"], case["second"]
+    sched = C.new_scheduler(limits={"r1": lim})
+    try:
+        first = ["list", [["task", ["lit", ["int", 5000 + i]], {}, {"limits": ["r1"]}] for i in range(k)]
+                 + [["task", ["lit", ["int", 5100]], {}, {"executor": "nope"}]]]
+        ctl1 = C.Ctl([], step_budget=4000)
+        ctl1.attach(sched)
+        try:
+            sched.run(vf_tasks.node(P.fresh(first), {}))
+            raise Violation("reuse:first-run-did-not-fail", "the first execution was expected to be rejected (unknown executor)", case)
+        except (C.Quiescent, C.StepBudget) as q:
+            raise Violation("stuck", f"first execution did not terminate: {q}", case)
+        except Violation:
+            raise
+        except Exception:  # noqa: BLE001 - the expected rejection
+            pass
+        out = len(ctl1.pending)
+        if out != k:
+            from vf.core import HarnessError
+
+            raise HarnessError(f"expected {k} jobs still out after the first execution, found {out}")
+        second = ["list", [["task", ["lit", ["int", 5200 + i]], {}, {"limits": ["r1"]}] for i in range(n)]]
+        ctl2 = C.Ctl(case["decisions"], fine=case["fine"], step_budget=4000)
+        ctl2.attach(sched)
+        worst = [0]
+
+        def monitor(kind, payload):
+            if kind == "submit":
+                held = k + len(ctl2.pending)
+                worst[0] = max(worst[0], held)
+
+        ctl2.monitors.append(monitor)
+        try:
+            v = sched.run(vf_tasks.node(P.fresh(second), {}))
+        except (C.Quiescent, C.StepBudget) as q:
+            raise Violation("reuse:stuck", f"second execution on the reused scheduler did not terminate: {q}; "
+                            f"limits_used={dict(sched.limits_used)}", case)
+        if worst[0] > lim:
+            raise Violation("limit-exceeded:reused-scheduler", f"resource r1: {worst[0]} units held at once (of which {k} by jobs "
+                            f"of the previous execution that are still with their executor), limit {lim}", case)
+        if sched.limits_used.get("r1", 0) != k:
+            raise Violation("accounting:reused-scheduler", f"after the second execution limits_used[r1]={sched.limits_used.get('r1')} "
+                            f"while {k} job(s) of the first execution are still unreported", case)
+        if v != [5200 + i for i in range(n)]:
+            raise Violation("wrong-outcome", f"second execution returned {v!r}", case)
+    finally:
+        dbx.discard_backend(sched.backend)
+
+
 def run_case(ctx: Ctx, case) -> None:
+    if case.get("reuse"):
+        try:
+            reuse_oracle(ctx, case)
+        finally:
+            ctx.case(case, labels=["reused-scheduler", f"stragglers:{case['stragglers']}"], nontrivial=True)
+        return
     r = None
     try:
         r = oracle(ctx, case)
@@ -73,8 +144,12 @@ def run_case(ctx: Ctx, case) -> None:
 def check(ctx: Ctx) -> None:
     C.quiet_logs()
     ctx.given(L.cases(), lambda c: run_case(ctx, c), ctx.n(250, 8000))
+    ctx.given(reuse_cases(), lambda c: run_case(ctx, c), ctx.n(30, 800))
 
 
 def replay(ctx: Ctx, case) -> None:
     C.quiet_logs()
+    if case.get("reuse"):
+        reuse_oracle(ctx, case)
+        return
     oracle(ctx, case)
